@@ -88,6 +88,13 @@ impl Shape {
 /// Build the log for `shape` with symbolic sizes under INV.  Returns the log and the
 /// (symbolic) total size of the active segment.
 pub fn build(shape: &Shape, max_mem: usize) -> (CommitLog<Item>, u64) {
+    build_with(shape, max_mem, None)
+}
+
+/// `active_sizes`: CONCRETE sizes for the entries of the active segment (append-step harnesses:
+/// whether the next append rotates must be a concrete branch - a symbolic one merges two heap
+/// layouts and the following `Vec::push` drags a symbolic-size reallocation into the formula).
+pub fn build_with(shape: &Shape, max_mem: usize, active_sizes: Option<[u16; 2]>) -> (CommitLog<Item>, u64) {
     let mut parts: Vec<(u64, Vec<Item>)> = Vec::with_capacity(3);
     let mut active_total = 0u64;
     let mut i = 0;
@@ -98,7 +105,11 @@ pub fn build(shape: &Shape, max_mem: usize) -> (CommitLog<Item>, u64) {
         let mut before_last = 0u64;
         let mut k = 0;
         while k < shape.counts[i] {
-            let sz: u16 = kani::any();
+            let active_seg = i + 1 == shape.nseg;
+            let sz: u16 = match (active_seg, active_sizes) {
+                (true, Some(a)) => a[k as usize],
+                _ => kani::any(),
+            };
             before_last = total;
             total += sz as u64;
             entries.push(Item { id: next_id, sz });
